@@ -235,3 +235,27 @@ theorem pick_step (c : Cfg) (s : State) (op : Op) :
   | destroy => simp [step, picks, init]
 
 end CliConfig
+
+namespace CliConfig
+
+/-- A recorded latest pick is either the initial value or a real event of the history:
+some operation picked that name while that environment was current. -/
+theorem lastPickFrom_event (c : Cfg) : ∀ (ops : List Op) (s : State) (acc : Option (String × String)) (n e : String),
+    lastPickFrom c s acc ops = some (n, e) →
+    acc = some (n, e) ∨
+    ∃ pre op post, ops = pre ++ op :: post ∧ picks c (run c s pre) op = some n ∧ (run c s pre).curEnv = e
+  | [], _, _, _, _, h => Or.inl h
+  | op :: ops, s, acc, n, e, h => by
+    simp only [lastPickFrom] at h
+    rcases lastPickFrom_event c ops _ _ n e h with h1 | ⟨pre, op', post, hops, hp, he⟩
+    · cases hpk : picks c s op with
+      | none => rw [hpk] at h1; exact Or.inl h1
+      | some m =>
+        rw [hpk] at h1
+        simp only [Option.some.injEq, Prod.mk.injEq] at h1
+        refine Or.inr ⟨[], op, ops, rfl, ?_, ?_⟩
+        · simp only [run]; rw [hpk, h1.1]
+        · simp only [run]; exact h1.2
+    · exact Or.inr ⟨op :: pre, op', post, by rw [hops]; rfl, hp, he⟩
+
+end CliConfig
